@@ -143,6 +143,11 @@ func (p Precompile) Run(evm *vm.EVM, contract *vm.Contract, readOnly bool) (bz [
 
 	writeCache()
 
+	// the method may have moved bank balances of accounts the StateDB has cached
+	if p.IsTransaction(method.Name) {
+		stateDB.RefreshBalances()
+	}
+
 	return bz, nil
 }
 
